@@ -406,6 +406,49 @@ def clause_group_image(prog, rep):
               "the %d HKDF context labels are pairwise distinct" % len(consts), "HKDF context labels collide or are missing: %s" % {last_seg(k): sorted(map(str, v)) for k, v in consts.items()})
 
 
+def clause_accepts_agree(prog, rep):
+    """what the sender accepts the receiver must accept: the file-name length bound enforced on the upload path and the one enforced when
+    the imeta tag is parsed are the same *constant*.  A bound that reaches a parameter of the upload API (options) lets a sender announce a
+    file whose tag every receiver refuses."""
+    core = K.core_scope(prog)
+
+    def bounds(entry_name):
+        roots = [f for f in prog.nontest_fns(("mdk_core",)) if f.name == entry_name and not f.is_closure()]
+        reach = set(p for p in prog.reachable(roots) if p in core)
+        out = set()
+        where = None
+        for p in sorted(reach):
+            g = prog.fns[p]
+            for bb, st in g.stmts():
+                if not (st.get("k") == "binop" and st.get("op") in ("Gt", "Ge", "Lt", "Le") and len(st["o"]) == 2):
+                    continue
+                a, b = st["o"]
+                for x, y in ((a, b), (b, a)):
+                    if "p" not in x:
+                        continue
+                    dep, calls, _ = g.depends_on(x["p"][0])
+                    if not any(c.name == "len" for c in calls) or "filename" not in [g.local_name(l) for l in dep]:
+                        continue
+                    where = where or "%s:%s" % (g.file, st.get("line") or g.line)
+                    if "c" in y and isinstance(y["c"], dict) and isinstance(y["c"].get("int"), int):
+                        out.add(("const", y["c"]["int"]))
+                    elif "p" in y:
+                        og = A.origins(prog, g, y["p"][0], scope=reach, max_frames=4)
+                        if og.params:
+                            out.add(("api-parameter", "/".join(sorted(set(q.label().split("::")[-1] for q, l in og.params)))))
+                        else:
+                            ints = sorted(set(c["int"] for _, _, c in og.consts if isinstance(c, dict) and isinstance(c.get("int"), int) and c["int"] > 1 and c.get("ty") == "usize"))
+                            out.add(("const", ints[0]) if len(ints) == 1 else ("computed", tuple(ints)))
+        return out, where
+    snd, w1 = bounds("encrypt_for_upload_with_options")
+    rcv, w2 = bounds("parse_imeta_tag")
+    rep.floor("aead-siblings", "file-name length bounds on the upload path / in the imeta parser", min(len(snd), len(rcv)), 1)
+    rep.check(snd == rcv and all(k == "const" for k, _ in snd), "aead-siblings", "accepts-agree/filename-length",
+              "upload and imeta parser refuse file names above the same constant %s" % sorted(snd),
+              "the upload path bounds the file name by %s, the imeta parser by %s: a file the sender was allowed to encrypt and announce is "
+              "refused by every receiver (or the reverse)" % (sorted(snd), sorted(rcv)), w1 or w2)
+
+
 def run(ctx, rep):
     prog = ctx.prog()
     rep.fns_analysed = len(K.core_scope(prog))
@@ -421,6 +464,7 @@ def run(ctx, rep):
         clause_binding_agreement(prog, rep)
         clause_imeta_verbatim(prog, rep)
         clause_epoch_hint_key(prog, rep)
+        clause_accepts_agree(prog, rep)
         K.clause_swapped_args(prog, rep, "aead-siblings", lambda fl: "encrypted_media" in fl or "media_processing" in fl, 8)
     clause_hash_check(prog, rep)
     clause_group_image(prog, rep)
